@@ -378,6 +378,19 @@ namespace c02
             return "?";
         }
 
+        // the caller's named initializer_list is const: it must read the same after the construction
+        void il_unchanged(const std::initializer_list<T> &il, const std::vector<int> &v)
+        {
+            size_t k = 0;
+            for (const T &e : il)
+            {
+                bool alive = !tracked || reg.state(std::addressof(e)) == trk::ALIVE;
+                if (!alive || value_of(e) != v[k])
+                    bad("ctor_initlist_const", "source_list_modified", mc::fmt("element %zu of the caller's initializer_list is %s with value %d after the construction, it was %d", k,
+                                                                              alive ? "alive" : "moved-from", value_of(e), v[k]));
+                k++;
+            }
+        }
         // -------------------------------------------------- initializer lists of run-time length
         template <bool RV> Vec *make_il(const std::vector<int> &v)
         {
@@ -389,7 +402,9 @@ namespace c02
         if (RV)                                                                                                        \
             return new Vec(std::initializer_list<T>{__VA_ARGS__});                                                     \
         const std::initializer_list<T> il = {__VA_ARGS__};                                                             \
-        return new Vec(il);                                                                                            \
+        Vec *nv = new Vec(il);                                                                                         \
+        il_unchanged(il, v);                                                                                           \
+        return nv;                                                                                                     \
     }
                 switch (v.size())
                 {
